@@ -625,5 +625,6 @@ def run(ctx):
     ev.assumptions += [
         "fault-free success is decided at the level of the transfer (segments enter the receive queue in order); the queue's Unhandled/Packet race is C07's subject",
         "async: <= R STATU datagrams; sync: 1 + R (one transmission plus R retransmissions)",
+        "repeated transfers on the blocking structure: its sticky had_at_least_one_block flag is cleared by the harness before the second transfer so that it reports on that transfer",
         "the packet un-framing step is done with the real GeckoPacketProtocolHandler, outside the client's consumer task",
     ]
